@@ -19,7 +19,11 @@ QAdd(a,b) == IF a[2] = b[2] THEN Nrm(a[1]+b[1], a[2])
              ELSE LET g == Gcd(a[2], b[2]) IN Nrm(a[1]*(b[2] \div g) + b[1]*(a[2] \div g), (a[2] \div g)*b[2])
 QNeg(a) == <<-a[1], a[2]>>
 QSub(a,b) == QAdd(a, QNeg(b))
-QMul(a,b) == IF a[1] = 0 \/ b[1] = 0 THEN <<0,1>> ELSE Nrm(a[1]*b[1], a[2]*b[2])
+Small(a) == a[2] < Lim /\ a[1] < Lim /\ a[1] > -Lim
+QMul(a,b) == IF a[1] = 0 \/ b[1] = 0 THEN <<0,1>>
+             ELSE IF Small(a) /\ Small(b) THEN Nrm(a[1]*b[1], a[2]*b[2])
+             ELSE LET g1 == Gcd(Abs(a[1]), b[2])  g2 == Gcd(Abs(b[1]), a[2])        \* cross-reduce before multiplying
+                  IN Nrm((a[1] \div g1) * (b[1] \div g2), (a[2] \div g2) * (b[2] \div g1))
 QInv(a) == IF a[1] > 0 THEN <<a[2], a[1]>> ELSE <<-a[2], -a[1]>>      \* a # 0
 QDiv(a,b) == QMul(a, QInv(b))
 QEq(a,b) == a[1]*b[2] = b[1]*a[2]
